@@ -1,7 +1,13 @@
 #!/bin/bash
 # tools/run_seeded.sh <PID> <patch.diff> [tier]  -- apply a seeded change to /repo, run ./check, undo it.
-# Refuses to start unless /repo is clean; restores exactly the files the patch touched.
+# Holds the exclusive /repo lock (checks hold the shared one), waits until /repo is clean, restores exactly
+# the files the patch touched.
 pid=$1; patch=$2; tier=${3:-quick}
+mkdir -p /verif/.cache; exec 9>/verif/.cache/repo.lock; flock -x 9; export NV_REPO_LOCK_HELD=1
+for i in $(seq 1 40); do
+  [ -z "$(git -C /repo status --porcelain)" ] && break
+  sleep 30
+done
 if [ -n "$(git -C /repo status --porcelain)" ]; then echo "REPO NOT CLEAN"; git -C /repo status --short; exit 9; fi
 git -C /repo apply "$patch" || { echo "PATCH DOES NOT APPLY"; exit 3; }
 files=$(git -C /repo status --porcelain | awk '{print $2}')
